@@ -154,6 +154,17 @@ def check_shape(shape, st: Stats, plan):
                                 report("C18/vsl-infinite-vs-plain/engine-created-limits-after-finite-step/numpy",
                                        f"{sv.short()}: L{i} VSL {vs} stepped with limit {LIMITS[0]}, then again with the states only on an "
                                        f"engine whose own variables are infinite, vs plain link: {msg} at {vl}", dict(case, pair="A4"))
+                        # (iv) whole-number states given as arrays of INTEGER dtype: neutral limits still reproduce the plain link
+                        vi_ = {k_: [float(round(x)) if abs(x) != INF else x for x in lst] for k_, lst in v.items()}
+                        vi2_ = dict(vi_)
+                        vi2_[(f"L{i}", "v_ctrl")] = [INF] * len(vs)
+                        a_i = np_step(sv, vi2_, P, integer=True)[0]
+                        b_i = np_step(plain, vi_, P, integer=True)[0]
+                        st.inc("executions", 2)
+                        msg = same_all(b_i, a_i)
+                        if msg:
+                            report("C18/vsl-infinite-vs-plain/integer-arrays/numpy", f"{sv.short()}: integer caller arrays, L{i} VSL {vs} "
+                                   f"with infinite limits vs plain: {msg} at {vl}", dict(case, pair="A5"))
                         neg = {k_: ([-x for x in lst] if k_[1] in ("rho", "v") else list(lst)) for k_, lst in v.items()}
                         neg2 = dict(neg)
                         neg2[(f"L{i}", "v_ctrl")] = [INF] * len(vs)
